@@ -3,7 +3,7 @@
    get_kernel_address, guess_kernel_base: translated from /repo's C text on every run). *)
 From Coq Require Import ZArith List Bool Sorting.Sorted Sorting.Permutation.
 Import ListNotations.
-Require Import UV.Gen.Kernels UV.C10.Model UV.C10.Proofs UV.C10.Sessions UV.C10.SymCodec.
+Require Import UV.Gen.Kernels UV.C10.Model UV.C10.Proofs UV.C10.Sessions UV.C10.SymCodec UV.C10.Dlopen.
 Local Open Scope Z_scope.
 
 (* ---------------------------------------------------------------- range lookup *)
@@ -151,6 +151,69 @@ Theorem C10_dlopen_list_sorted : forall d l, StronglySorted (fun x y => d_time x
   StronglySorted (fun x y => d_time x <= d_time y) (insert_dl d l).
 Proof. exact insert_dl_sorted. Qed.
 Print Assumptions C10_dlopen_list_sorted.
+
+(* ---------------------------------------------------------------- dlopen, record side *)
+(* "a module's load event precedes all records at its addresses": in the model of the dlopen()
+   wrapper as the code has it (clock read on entry, real_dlopen() afterwards), at ANY dlopen node
+   of a thread's history - outermost or issued by a constructor - the DLOP message carries the
+   entry clock value and every record made while the library is loaded (constructors, C++ global
+   initialisers, whatever they call) is later ... *)
+Theorem C10_load_precedes_ctor_records : forall base tab ctor clk c' recs dls,
+  run_act true (ADlopen base tab ctor) clk = (c', recs, dls) ->
+  In (mkDl clk base tab) dls /\ (forall t a, In (t, a) recs -> clk < t) /\ clk < c'.
+Proof. exact load_precedes_ctor_records. Qed.
+Print Assumptions C10_load_precedes_ctor_records.
+
+(* ... and so is every record of the rest of the run *)
+Theorem C10_load_precedes_all_records : forall base tab ctor rest clk c' recs dls,
+  run_acts true (ADlopen base tab ctor :: rest) clk = (c', recs, dls) ->
+  In (mkDl clk base tab) dls /\ (forall t a, In (t, a) recs -> clk < t).
+Proof. exact load_precedes_all_records. Qed.
+Print Assumptions C10_load_precedes_all_records.
+
+(* the same two statements for the wrapper as built: [wrap_dlopen_clock_first] is derived from the
+   C text of libmcount/wrap.c on every run (is mcount_gettime() called before real_dlopen()?) *)
+Theorem C10_load_precedes_ctor_records_as_built : forall base tab ctor clk c' recs dls,
+  run_act wrap_dlopen_clock_first (ADlopen base tab ctor) clk = (c', recs, dls) ->
+  In (mkDl clk base tab) dls /\ (forall t a, In (t, a) recs -> clk < t) /\ clk < c'.
+Proof. exact load_precedes_ctor_records_as_built. Qed.
+Print Assumptions C10_load_precedes_ctor_records_as_built.
+
+Theorem C10_load_precedes_all_records_as_built : forall base tab ctor rest clk c' recs dls,
+  run_acts wrap_dlopen_clock_first (ADlopen base tab ctor :: rest) clk = (c', recs, dls) ->
+  In (mkDl clk base tab) dls /\ (forall t a, In (t, a) recs -> clk < t).
+Proof. exact load_precedes_all_records_as_built. Qed.
+Print Assumptions C10_load_precedes_all_records_as_built.
+
+(* a library whose load event is not later than the record is searched for it *)
+Theorem C10_loaded_library_is_searched : forall d t a, d_time d <= t ->
+  dl_hit t a d = find_sym (d_tab d) ((a - d_base d) mod W64).
+Proof. exact loaded_library_is_searched. Qed.
+Print Assumptions C10_loaded_library_is_searched.
+
+(* wrapper + lookup: a constructor's record inside a symbol of its library resolves to it *)
+Theorem C10_dlopen_ctor_record_resolves : forall base tab ctor clk c' recs dls s l1 l2 t a x,
+  run_act true (ADlopen base tab ctor) clk = (c', recs, dls) -> In (t, a) recs ->
+  se_dl s = l1 ++ mkDl clk base tab :: l2 ->
+  find_sym tab ((a - base) mod W64) = Some x ->
+  (forall d', In d' l2 -> dl_hit t a d' = None) ->
+  find_dlsym s t a = Some x.
+Proof. exact ctor_record_resolves. Qed.
+Print Assumptions C10_dlopen_ctor_record_resolves.
+
+Theorem C10_dlop_messages_kept : forall msgs d, In d (dl_list msgs) <-> In d msgs.
+Proof. exact dl_list_In. Qed.
+Print Assumptions C10_dlop_messages_kept.
+
+(* the order inside the wrapper is essential: reading the clock after real_dlopen() makes the
+   constructor's record predate the DLOP time stamp and the library is skipped for it *)
+Theorem C10_late_timestamp_refuted :
+  let '(_, recs, dls) := run_act false (ADlopen 4096 tab_plugin [ARec 4360]) 10 in
+  recs = [(10, 4360)] /\ dls = [mkDl 11 4096 tab_plugin] /\
+  find_dlsym (mkSess 0 [] 1 1 0 (mkSinfo 0 [] []) (dl_list dls)) 10 4360 = None /\
+  spec_find tab_plugin (4360 - 4096) = Some (mkSym 256 64 84 [105;110;105;116]).
+Proof. exact late_timestamp_refuted. Qed.
+Print Assumptions C10_late_timestamp_refuted.
 
 (* ---------------------------------------------------------------- .sym files *)
 (* what save_module_symbol_file writes is read back by load_module_symbol_file as the same
